@@ -3,6 +3,7 @@ import CelModel.Macros
 import CelModel.CtxOps
 import CelModel.Refs
 import CelModel.Parser
+import CelModel.Serde
 /-!
 # Line protocol: s-expressions, decoding of cases, printing of answers
 
@@ -260,6 +261,70 @@ def decArith : String → Option ArithOp
 def encOrd : Option Ordering → String
   | none => "none" | some .lt => "lt" | some .eq => "eq" | some .gt => "gt"
 
+/-! ### serde data and JSON -/
+open Serde in
+partial def decData : Sx → Serde.Data
+  | .atom "wide" => .wide
+  | .atom "none" => .none
+  | .atom "unit" => .unit
+  | .list [.atom "bool", .atom b] => .bool (b == "1")
+  | .list [.atom "int", .atom n] => .int (atomInt n)
+  | .list [.atom "uint", .atom n] => .uint (atomInt n)
+  | .list [.atom "float", .atom h] => .float (atomHex64 h)
+  | .list [.atom "char", .atom h] => .char ((atomStr h).head?.getD 'x')
+  | .list [.atom "str", .atom h] => .str (atomStr h)
+  | .list [.atom "bytes", .atom h] => .bytes (atomBytes h)
+  | .list [.atom "some", d] => .some (decData d)
+  | .list [.atom "unitstruct", .atom n] => .unitStruct (atomName n)
+  | .list [.atom "unitvariant", .atom n, .atom v] => .unitVariant (atomName n) (atomName v)
+  | .list [.atom "ntstruct", .atom n, d] => .newtypeStruct (atomName n) (decData d)
+  | .list [.atom "ntvariant", .atom n, .atom v, d] => .newtypeVariant (atomName n) (atomName v) (decData d)
+  | .list (.atom "seq" :: ds) => .seq (ds.map decData)
+  | .list (.atom "tuple" :: ds) => .tuple (ds.map decData)
+  | .list (.atom "tstruct" :: .atom n :: ds) => .tupleStruct (atomName n) (ds.map decData)
+  | .list (.atom "tvariant" :: .atom n :: .atom v :: ds) => .tupleVariant (atomName n) (atomName v) (ds.map decData)
+  | .list (.atom "map" :: es) => .map (es.filterMap (fun e => match e with
+      | .list [k, v] => some (decData k, decData v) | _ => none))
+  | .list (.atom "struct" :: .atom n :: fs) => .struct (atomName n) (fs.filterMap (fun e => match e with
+      | .list [.atom f, v] => some (atomName f, decData v) | _ => none))
+  | .list (.atom "svariant" :: .atom n :: .atom v :: fs) => .structVariant (atomName n) (atomName v)
+      (fs.filterMap (fun e => match e with
+      | .list [.atom f, v] => some (atomName f, decData v) | _ => none))
+  | .list [.atom "celdur", .atom n] => .celDuration (atomInt n)
+  | .list [.atom "celts", .atom t, .atom o] => .celTimestamp (atomInt t) (atomInt o)
+  | _ => .unit
+
+def insertSortedJ (e : Str × Serde.Json) : List (Str × Serde.Json) → List (Str × Serde.Json)
+  | [] => [e]
+  | x :: xs => if cmpStr e.1 x.1 == .lt then e :: x :: xs else x :: insertSortedJ e xs
+
+partial def encJson : Serde.Json → String
+  | .null => "jnull"
+  | .bool b => if b then "(jbool 1)" else "(jbool 0)"
+  | .int i => s!"(jint {i})"
+  | .float b => s!"(jdbl {hex64 b})"
+  | .str s => "(jstr " ++ strAtom s ++ ")"
+  | .arr xs => "(jarr" ++ String.join (xs.map (fun j => " " ++ encJson j)) ++ ")"
+  | .obj fs => "(jobj" ++ String.join ((fs.foldl (fun acc e => insertSortedJ e acc) []).map (fun kv =>
+      " (" ++ strAtom kv.1 ++ " " ++ encJson kv.2 ++ ")")) ++ ")"
+
+partial def decJson : Sx → Serde.Json
+  | .atom "jnull" => .null
+  | .list [.atom "jbool", .atom b] => .bool (b == "1")
+  | .list [.atom "jint", .atom n] => .int (atomInt n)
+  | .list [.atom "jdbl", .atom h] => .float (atomHex64 h)
+  | .list [.atom "jstr", .atom h] => .str (atomStr h)
+  | .list (.atom "jarr" :: xs) => .arr (xs.map decJson)
+  | .list (.atom "jobj" :: fs) => .obj (fs.filterMap (fun e => match e with
+      | .list [.atom k, v] => some (atomStr k, decJson v) | _ => none))
+  | _ => .null
+
+def encJsonOutcome : Except Serde.JsonErr Serde.Json → String
+  | .ok j => "(ok " ++ encJson j ++ ")"
+  -- the kind of error (function value / over-wide duration) depends on which offending
+  -- element a map iteration reaches first, so only "an error" is observable
+  | .error _ => "(jerr)"
+
 /-- answer one case -/
 def answer (kind : String) (payload : List Sx) : String :=
   match kind, payload with
@@ -296,6 +361,25 @@ def answer (kind : String) (payload : List Sx) : String :=
       | .float s => " (float " ++ strAtom s ++ ")"
       | .str s => " (str " ++ strAtom s ++ ")"
       | .bytes s => " (bytes " ++ strAtom s ++ ")")) ++ ")"
+  | "serde", [d] =>
+    let data := decData d
+    let v := Serde.toValue data
+    let vtxt := match v with
+      | .ok x => "(ok " ++ encValue x ++ ")"
+      | .error .invalidKey => "(err invalid-key)"
+      | .error .serdeError => "(err serde-error)"
+    let jtxt := match v with
+      | .ok x => encJsonOutcome (Serde.toJson x)
+      | .error _ => "-"
+    let stxt := match Serde.serdeJson data with
+      | some j => "(ok " ++ encJson j ++ ")"
+      | none => "(err)"
+    "(serde " ++ vtxt ++ " " ++ jtxt ++ " " ++ stxt ++ ")"
+  | "json", [v] =>
+    let value := decValue v
+    (match Serde.toJson value with
+     | .ok j => "(json (ok " ++ encJson j ++ ") " ++ encValue (Serde.fromJson j) ++ ")"
+     | e => "(json " ++ encJsonOutcome e ++ " -)")
   | "cmp2", [a, b] =>
     let va := decValue a; let vb := decValue b
     let bit := fun (x : Bool) => if x then "1" else "0"
